@@ -19,7 +19,13 @@ RULE = ("worlds mixing static data, plaintext and ciphertext secrets, references
         "second provider, with exact, loose (partial records, open tuples, bare types) and `always` declared schemas; "
         "literal-only import graphs; providers declaring anyOf / oneOf of records (schema oracle only); unopened closed / "
         "map-like / nested provider records merged under and over literals with references before and after their targets "
-        "(model-vs-implementation schema comparison at the border of Corr/C06Schema.hist_class).  "
+        "(model-vs-implementation schema comparison at the border of Corr/C06Schema.hist_class, and the schema clause's "
+        "oracle like everywhere else); regression corpus: the minimal programs of the seven recorded schema findings "
+        "(merge-required is fixed) with their neighbours that must be accepted, among them references through a non-object "
+        "layer of an import (merge-through-cut), literals over a member the provider may not return (merge-optional-member) "
+        "and readers of a member covered by a surviving additionalProperties (merge-open-base).  A schema failure counts as "
+        "a recorded finding only where the evaluator model predicts the schemas the implementation reported (outside "
+        "hist_class) and, for merge-through-cut, only below the paths where the model has a hidden cut.  "
         "non-trivial = the open run calls a provider or the decrypter, or the case is inside the schema clause's hypothesis "
         "and decided")
 ASSUMPTIONS = ["'objects keep at least the properties check reports' is checked as key inclusion; whether an extra key of the "
@@ -28,6 +34,12 @@ ASSUMPTIONS = ["'objects keep at least the properties check reports' is checked 
                "deprecated, examples, secret) and minus `\"type\": \"\"` (esc's spelling of an absent type); schemas or values "
                "outside Model/Schema.v's vocabulary ($ref/$defs, non-integral numerals, unknown keywords) are counted as "
                "outside (distribution.schema_clause), never guessed",
+               "schema clause, known classes (Corr/C06Schema.known): seven decidable classes, each a precondition on the input "
+               "plus the relaxation of the reported schema that neutralises exactly that symptom; class merge-through-cut is "
+               "decided on the evaluator model (Corr/C06Schema.cut_paths: paths whose chain has an object / non-object / "
+               "object pattern of layer schemas that the schema-level merge does not see), every class counts only where the "
+               "model predicts the schemas the implementation reported (negb sch_mismatch); counts per class and family in "
+               "distribution.schema_clause",
                "schema clause: `providers conform` is computed in Python (props/c06_schema_cases.conforms) from the constant "
                "and the declared output schema of every provider the open run called; echo providers declare `always`",
                "model vs implementation on schemas: Environment.Schema of all three runs is compared with the evaluator model's "
